@@ -11,4 +11,6 @@ EnvRows == IF IOEnv.C02_ROWS = "1" THEN {1} ELSE {}
 EnvTouch == IOEnv.C02_TOUCH = "TRUE"
 EnvShared == IOEnv.C02_SHARED = "TRUE"
 EnvDeferred == IOEnv.C02_DEFERRED = "TRUE"
+EnvLockedCorrupt == IOEnv.C02_LOCKEDCORRUPT = "TRUE"
+EnvTimeout == IOEnv.C02_TIMEOUT = "TRUE"
 =============================================================================
